@@ -554,7 +554,7 @@ def common_summaries():
     @reg(r'^unbounded(::<.*>)?$|^crossbeam_channel::unbounded')
     def cb_unbounded(ex, st, fn, argv):
         n = len(st.roots.setdefault('new_chans', []))
-        ch = Chan(f"new-unbounded{n}", None, st.fresh_bool('rx_alive'))
+        ch = Chan(f"new-unbounded{n}", None, st.fresh_bool('rx_alive') if st.roots.get('new_rx_symbolic') else True)
         st.roots['new_chans'].append(ch)
         return [(st, Agg({0: SenderVal(ch), 1: ReceiverVal(ch)}, 'tuple'))]
 
